@@ -38,6 +38,8 @@ namespace occa {
 
     iteration& operator = (const iteration &other);
 
+    bool isEmpty() const;
+
     std::string buildForLoop(forLoopType loopType,
                              occa::scope &scope,
                              const std::string &iteratorName) const;
